@@ -7,6 +7,8 @@ from vt.families.base import config, dedupe, facts, job, orc, subsets
 HEADS = [
     ("h1", "h(X)"),
     ("h2", "h(X,W)"),
+    ("h2b", "h(X,Y)"),
+    ("h2c", "h(Y,Z)"),
     ("choice", "{ h(X) }"),
     ("disj", "h(X) ; g(X)"),
     ("constraint", ""),
@@ -31,6 +33,13 @@ MENU = [
     "N = #sum { V : v(V,X) }",
     "not t(X)",
     "h(Y)",
+    "r(X/2,W)",
+    "r(X+1,W)",
+    "r(2*X,W)",
+    "K = X/2",
+    "r(K,W)",
+    "q(X,Y/2,Z)",
+    "t(|Y|)",
 ]
 
 IN0 = [["q", 3], ["r", 2], ["t", 1], ["s", 2], ["v", 2], ["u", 1]]
@@ -54,6 +63,9 @@ def jobs(tier: str):
             yield from subsets(core, 4, 4)
         yield from (c + ("u(W) : v(Z,V)",) for c in subsets(MENU[:6], 3, 3))
         yield from (c + ("r(Y,K)", "u(K) : v(Z,V)") for c in subsets(MENU[:6], 2, 2))
+        arith = ["r(X/2,W)", "r(X+1,W)", "r(2*X,W)", "K = X/2", "q(X,Y/2,Z)", "t(|Y|)", "W = Y+1"]
+        for a in arith:
+            yield from (c + (a,) for c in subsets(["q(X,Y,Z)", "r(W,E)", "t(E)", "r(X,W)", "s(Y,E)", "r(K,W)"], 2, 3))
 
     def gen():
         for hname, head in HEADS + [("h3", "h(X,W,K)")]:
